@@ -117,6 +117,15 @@ def incremental_driver(cfg, T):
         loss = make_loss(cfg['loss'], log)
         storage = build_storage(cfg['storage'], log, None, spy=True)
         cls = IncrementalPFI if cfg['expl'] == 'pfi' else IncrementalSage
+        # exactly one environment scenario per execution (they are not crossed with each other)
+        scenarios = ['plain', 'extra-key', 'warm-start', 'model-fault'] + (['earlier-explainer'] if cfg['storage'] == 'libdefault' else [])
+        scenario = scenarios[run.choose(len(scenarios), 'scenario', None, 0)]
+        if scenario == 'earlier-explainer':
+            # another explainer built with the default storage has already processed a stream in this process
+            for other_cls in (IncrementalPFI, IncrementalSage):
+                other = other_cls(Model(names, 'scalar', None, EventLog()), Loss('scalar', 'sq', EventLog()), list(names))
+                for i in range(3):
+                    other.explain_one({n: F(7000 + 10 * i + j) for j, n in enumerate(names)}, F(i))
         kw = {}
         if cfg['form'] != 'required-only':
             kw['n_inner_samples'] = cfg['n']
@@ -133,12 +142,12 @@ def incremental_driver(cfg, T):
         obs = observations(names, T + 1)
         pre = obs[T:]
         obs = obs[:T]
-        if run.choose(2, 'extra-unexplained-feature', None, 0):
+        if scenario == 'extra-key':
             # the observation has more keys than the explained feature names (explaining a subset of the inputs)
             obs = [({**x, 'zz_extra': F(1000 + i)}, y) for i, (x, y) in enumerate(obs)]
             pre = [({**x, 'zz_extra': F(2000 + i)}, y) for i, (x, y) in enumerate(pre)]
         prefilled = []
-        if run.choose(2, 'warm-start-storage', None, 0):
+        if scenario == 'warm-start':
             # the storage is filled through the public update_storage before the first explain_one
             ex.update_storage(dict(pre[0][0]), pre[0][1])
             prefilled = [pre[0]]
@@ -157,7 +166,8 @@ def incremental_driver(cfg, T):
             names_before = list(names_arg)
             seen_before = ex.seen_samples
             mark = log.mark()
-            fault_at = run.choose(2 + cfg['d'] * n_eff, 'model-fault-at-evaluation', None, 0) if (t == T - 1 and t >= 1) else 0
+            fault_at = (1 + run.choose(1 + cfg['d'] * n_eff, 'model-fault-at-evaluation', None, 0)) \
+                if (scenario == 'model-fault' and t == T - 1 and t >= 1) else 0
             if fault_at:
                 # the user's model raises at its fault_at-th evaluation of this call: x (and the names) must be untouched
                 model.fail_at = model.n_calls + fault_at
@@ -212,14 +222,14 @@ def incremental_driver(cfg, T):
                         bad('storage-update-not-last', cfg, f"{where}: callbacks {later} happened after the storage was "
                                                             f"updated with the current observation (it must not be part "
                                                             f"of its own background)")
-                # every model input value stems from x or an earlier arrival
-                for e in ev:
-                    if e[0] == 'model':
-                        for n in names:
-                            v = e[1][n]
-                            if not (v == x[n]) and not any(v == ox[n] for ox, _ in obs[:t] + prefilled):
-                                bad('foreign-value', cfg, f"{where}: model input {e[1]} has a value for {n!r} that is "
-                                                          f"neither x's nor an earlier arrival's")
+            # every model input value stems from x or an earlier arrival of THIS explainer
+            for e in ev:
+                if e[0] == 'model':
+                    for n in names:
+                        v = e[1][n]
+                        if not (v == x[n]) and not any(v == ox[n] for ox, _ in obs[:t] + prefilled):
+                            bad('foreign-value', cfg, f"{where}: model input {e[1]} has a value for {n!r} that is "
+                                                      f"neither x's nor an earlier arrival's of this explainer")
             if t >= 1:
                 check_keys(cfg, names, ex.importance_values, f"{where}: importance_values")
             if not dict_eq(dict(ret), ex.importance_values) or list(ret.keys()) != list(ex.importance_values.keys()):
